@@ -233,7 +233,12 @@ class Network(Module):
             )
 
         # Convert comp_edges to the index format required for `jax.sparse` solvers.
-        n_nodes, data_inds, indices, indptr = comp_edges_to_indices(self._comp_edges)
+        # All compartments plus all branchpoints. This cannot be inferred from
+        # `self._comp_edges` because single-compartment cells have no edges.
+        n_nodes = int(self.cumsum_ncomp[-1] + self._cumsum_nbranchpoints_per_cell[-1])
+        n_nodes, data_inds, indices, indptr = comp_edges_to_indices(
+            self._comp_edges, n_nodes=n_nodes
+        )
         self._n_nodes = n_nodes
         self._data_inds = data_inds
         self._indices_jax_spsolve = indices
